@@ -41,7 +41,7 @@ func pluginCrash(r *Run, it Item) {
 		_ = S
 		tmpID = itoa(int64(x.strConst(".tmp")))
 	}
-	fr := r.Eng.verifyFuncOpts(key, RunOpts{Trace: true, Depth: 2, Over: map[string]stdModel{}, Setup: setup})
+	fr := r.Eng.verifyFuncOpts(key, RunOpts{Trace: true, Depth: 2, Over: map[string]stdModel{}, Setup: setup, NoModular: true})
 	r.results[key] = fr
 	if fr.Err != "" {
 		r.Errors = append(r.Errors, key+": "+fr.Err)
